@@ -140,8 +140,13 @@ def exec_op(op: dict, keep: dict | None = None) -> str:
             if op["pid_key"] in p:
                 kw["aggregate_by_p_id_specs"] = {op["pid_key"]: {**p[op["pid_key"]], "aggr": "sum", "source_col": "kind"}}
             snap = json.dumps(kw, sort_keys=True)
-            res = compute_taxes_and_transfers(data=df, params=params, functions=functions,
-                                              targets=[op["group_key"], op["pid_key"], "arbeitsl_geld_2_m_bg"], **kw)
+            try:
+                res = compute_taxes_and_transfers(data=df, params=params, functions=functions,
+                                                  targets=[op["group_key"], op["pid_key"], "arbeitsl_geld_2_m_bg"], **kw)
+            except ZeroDivisionError:
+                # the reform itself can make a rule divide by zero (a head count re-defined as the number of children is 0
+                # in a childless household); that outcome must then be the same in a fresh process, which is what is compared
+                return _hash(["err", "ZeroDivisionError"])
             if keep is not None:
                 keep["params_mutated"] = snap != json.dumps(kw, sort_keys=True)
             return _frame_digest(res)
